@@ -134,7 +134,11 @@ func (lc *linCtx) lenVar(x ssa.Value) linExpr {
 	if n, fi := sliceFieldOf(lc.strip(x)); n != nil && lc.c != nil {
 		own := "." + n.Underlying().(*types.Struct).Field(fi).Name() + "))"
 		if strings.HasSuffix(name, own) {
-			for _, sib := range lc.c.lenEqSiblings(n, fi) {
+			sibs := lc.c.lenEqSiblings(n, fi)
+			if in, isI := lc.strip(x).(ssa.Instruction); isI && lc.c.lenEqWriters[n][in.Parent()] {
+				sibs = nil // a function that builds the lists sees them half built
+			}
+			for _, sib := range sibs {
 				sn := strings.TrimSuffix(name, own) + "." + n.Underlying().(*types.Struct).Field(sib).Name() + "))"
 				se := linVar(sn)
 				lc.def().facts = append(lc.def().facts, se, geq(e, se), geq(se, e))
@@ -1135,6 +1139,11 @@ func (c *Ctx) lenEqSiblings(n *types.Named, fi int) []int {
 	P := c.P
 	res := map[int][]int{}
 	c.lenEq[n] = res
+	if c.lenEqWriters == nil {
+		c.lenEqWriters = map[*types.Named]map[*ssa.Function]bool{}
+	}
+	writers := map[*ssa.Function]bool{}
+	c.lenEqWriters[n] = writers
 	st, ok := n.Underlying().(*types.Struct)
 	if !ok || P.moduleStruct(n) == nil {
 		return nil
@@ -1225,6 +1234,207 @@ func (c *Ctx) lenEqSiblings(n *types.Named, fi int) []int {
 				}
 			}
 		})
+	}
+	// equal by construction: each of the two fields gets its length in one place of one function - a sub-slice
+	// x[lo:hi], a make of given length, or one element appended per iteration of `for i := lo; i < hi; i++` to the
+	// field of a fresh struct - and the two lengths are the same linear expression
+	type lenDef struct {
+		fn   *ssa.Function
+		base ssa.Value
+		e    linExpr
+		st   *ssa.Store
+		head *ssa.BasicBlock          // of the counting loop, for the appended field
+		body map[*ssa.BasicBlock]bool //
+	}
+	defs := map[int][]lenDef{}
+	okDefs := map[int]bool{}
+	for _, f := range sliceFields {
+		okDefs[f] = true
+	}
+	for _, fn := range P.ModFuncs {
+		allInstrs(fn, func(b *ssa.BasicBlock, ins ssa.Instruction) {
+			fa, ok := ins.(*ssa.FieldAddr)
+			if !ok {
+				return
+			}
+			if nn, _ := deref(fa.X.Type()).(*types.Named); nn != n {
+				return
+			}
+			if _, tracked := okDefs[fa.Field]; !tracked || fa.Referrers() == nil {
+				return
+			}
+			for _, r := range *fa.Referrers() {
+				st, isSt := r.(*ssa.Store)
+				if !isSt {
+					if u, isU := r.(*ssa.UnOp); isU && u.Op == token.MUL {
+						continue
+					}
+					if _, isD := r.(*ssa.DebugRef); isD {
+						continue
+					}
+					okDefs[fa.Field] = false
+					continue
+				}
+				if st.Addr != fa {
+					okDefs[fa.Field] = false
+					continue
+				}
+				writers[fn] = true
+				lc := c.newLin(st.Block())
+				lc.trust = false
+				switch v := st.Val.(type) {
+				case *ssa.Slice:
+					if _, isArr := deref(v.X.Type()).Underlying().(*types.Array); isArr {
+						okDefs[fa.Field] = false
+						continue
+					}
+					lo, hi := linConst(0), lc.lenVar(v.X)
+					if v.Low != nil {
+						lo = lc.of(v.Low)
+					}
+					if v.High != nil {
+						hi = lc.of(v.High)
+					}
+					defs[fa.Field] = append(defs[fa.Field], lenDef{fn: fn, base: fa.X, e: hi.add(lo, -1), st: st})
+				case *ssa.MakeSlice:
+					defs[fa.Field] = append(defs[fa.Field], lenDef{fn: fn, base: fa.X, e: lc.of(v.Len), st: st})
+				case *ssa.Call:
+					if !oneElemSelfAppend(st, fa) {
+						okDefs[fa.Field] = false
+						continue
+					}
+					// once per iteration of a counting loop, on a struct that is fresh in this function
+					var found bool
+					for _, l := range naturalLoops(fn) {
+						if !l.body[st.Block()] {
+							continue
+						}
+						ifi, isIf := lastInstr(l.head).(*ssa.If)
+						if !isIf {
+							continue
+						}
+						bo, isB := ifi.Cond.(*ssa.BinOp)
+						if !isB || bo.Op != token.LSS {
+							continue
+						}
+						ph, isPhi := bo.X.(*ssa.Phi)
+						if !isPhi || ph.Block() != l.head {
+							continue
+						}
+						var init ssa.Value
+						step := true
+						for ei, e := range ph.Edges {
+							if l.body[l.head.Preds[ei]] {
+								b2, isB2 := e.(*ssa.BinOp)
+								k, isC := int64(0), false
+								if isB2 && b2.Op == token.ADD && b2.X == ssa.Value(ph) {
+									k, isC = constInt(b2.Y)
+								}
+								if !isC || k != 1 {
+									step = false
+								}
+							} else {
+								init = e
+							}
+						}
+						atHead, every := true, true
+						for _, ex := range l.exits {
+							if ex[0] != l.head {
+								atHead = false
+							}
+						}
+						for _, tb := range fn.Blocks {
+							for _, h := range tb.Succs {
+								if h == l.head && l.body[tb] && !dominates(st.Block(), tb) {
+									every = false
+								}
+							}
+						}
+						if _, fresh := fa.X.(*ssa.Alloc); !fresh || init == nil || !step || !atHead || !every {
+							continue
+						}
+						defs[fa.Field] = append(defs[fa.Field], lenDef{fn: fn, base: fa.X, e: lc.of(bo.Y).add(lc.of(init), -1), st: st, head: l.head, body: l.body})
+						found = true
+					}
+					if !found {
+						okDefs[fa.Field] = false
+					}
+				default:
+					if cs, isC := v.(*ssa.Const); isC && cs.IsNil() {
+						continue // = nil: the empty list
+					}
+					okDefs[fa.Field] = false
+				}
+			}
+		})
+	}
+	for _, f := range sliceFields {
+		for _, g := range sliceFields {
+			if f == g || !okDefs[f] || !okDefs[g] || len(defs[f]) != 1 || len(defs[g]) != 1 {
+				continue
+			}
+			df, dg := defs[f][0], defs[g][0]
+			if df.fn != dg.fn || !sameStructCell(df.base, dg.base) {
+				continue
+			}
+			if d := df.e.add(dg.e, -1); !d.isConst() || d.c != 0 {
+				continue
+			}
+			// the struct is seen as a whole (loaded, returned, passed on) only when both fields have their length
+			before := func(a, b ssa.Instruction) bool {
+				if a.Block() == b.Block() {
+					return instrIdx(a) < instrIdx(b)
+				}
+				return dominates(a.Block(), b.Block())
+			}
+			done := func(d lenDef, at ssa.Instruction) bool {
+				if d.head != nil {
+					return at.Block() != d.head && dominates(d.head, at.Block()) && !d.body[at.Block()]
+				}
+				return before(d.st, at)
+			}
+			complete := true
+			for _, base := range []ssa.Value{df.base, dg.base} {
+				al, isAl := base.(*ssa.Alloc)
+				if !isAl || al.Referrers() == nil {
+					complete = false
+					break
+				}
+				for _, r := range *al.Referrers() {
+					switch u := r.(type) {
+					case *ssa.FieldAddr, *ssa.DebugRef:
+						continue
+					case *ssa.UnOp:
+						// the copy of the literal's temporary into the variable: before the loop, after the store
+						if other := map[ssa.Value]ssa.Value{df.base: dg.base, dg.base: df.base}[base]; other != base && u.Op == token.MUL && u.Referrers() != nil && len(*u.Referrers()) == 1 {
+							if cp, isSt := (*u.Referrers())[0].(*ssa.Store); isSt && cp.Addr == other && cp.Val == ssa.Value(u) {
+								for _, d := range []lenDef{df, dg} {
+									if d.base == base && !done(d, u) {
+										complete = false
+									}
+									if d.base == other && (d.head == nil || !dominates(cp.Block(), d.head) || d.body[cp.Block()]) {
+										complete = false
+									}
+								}
+								continue
+							}
+						}
+					case *ssa.Store:
+						if u.Addr == base {
+							if ld, isLd := u.Val.(*ssa.UnOp); isLd && ld.Op == token.MUL && (ld.X == df.base || ld.X == dg.base) {
+								continue // judged at the load
+							}
+						}
+					}
+					if !done(df, r) || !done(dg, r) {
+						complete = false
+					}
+				}
+			}
+			if complete {
+				res[f] = append(res[f], g)
+			}
+		}
 	}
 	for _, f := range sliceFields {
 		for _, g := range sliceFields {
